@@ -974,9 +974,12 @@ def gen_cases(ctx, thorough):
                     data.append((sv, bs))
                 plan.append({"aseed": af.draw_aseed(rng), "kind": kind, "n": n, "h": h, "a": a, "am": am, "ph": ph, "data": data, "regime": "near-plus"})
         # huge-amplitude regime (extension round X2): |Upsi|^2 beyond the doubles, see mk_huge_case
+        # (drawn from a COPY of the generator state: seeded by ctx.rng, but the stream every other case is drawn from is what it was before)
         if kind == "cplx":
+            import random as _random
+            sub = _random.Random(); sub.setstate(rng.getstate())
             for _ in range(4 if thorough else 1):
-                plan.append(mk_huge_case(rng))
+                plan.append(mk_huge_case(sub))
         # one batch with more than 256 distinct bases (group labels beyond one byte)
         if kind == "cplx":
             n = 6
